@@ -187,6 +187,13 @@ def long_inputs(rng, maxlen, big_path):
                               ("not-paren", "not ("), ("cmp-paren", "b eq (")):
             for ename, ender in (("eof", ""), ("ws", " "), ("op", " and"), ("comma", ",")):
                 yield "long:deep-%s-open-%s-%s" % (name, oname, ename), opener + prefix + ender
+        # ... or sitting, complete and valid, inside a call that is refused for another reason
+        # (unknown name, wrong number of arguments): the refusal path sees the deep node
+        for cname, frame in (("unknown", "nosuch(%s)"), ("unknown-2nd", "nosuch(1, %s)"), ("too-few", "concat(%s)"),
+                             ("too-many", "contains(name, 'x', %s)"), ("too-many-1st", "length(%s, 1)"),
+                             ("geo-unknown", "geo.nosuch(%s)"), ("nested-bad", "tolower(trim(%s, 1))"),
+                             ("bad-in-lambda", "xs/any(y: nosuch(%s))"), ("bad-in-list", "a in (1, now(%s))")):
+            yield "long:deep-%s-in-refused-call-%s" % (name, cname), frame % prefix
     yield "long:mixed", cap(" and ".join("(a%d/b/c add %d) mul -x lt f.g(%d, 'q''%d') or not y in (1, 2,)"
                                          % (i, i, i, i) for i in range(n // 70)))
 
@@ -507,16 +514,37 @@ def run_hang_lane(ctx, per_case_s=20.0, confirm_s=30.0):
                 # confirm on its own, from a fresh process, with a longer limit
                 single = os.path.join(d, "single.json")
                 json.dump([text], open(single, "w"))
-                try:
-                    subprocess.run([sys.executable, "-c", HANG_CHILD, repo, single, "0"],
-                                   stdout=subprocess.DEVNULL, stderr=subprocess.DEVNULL,
-                                   timeout=confirm_s)
+                # the verdict is taken on the CPU time the child has used, not on wall-clock time:
+                # on a loaded machine a starved child is waited for, not accused
+                q = subprocess.Popen([sys.executable, "-c", HANG_CHILD, repo, single, "0"],
+                                     stdout=subprocess.DEVNULL, stderr=subprocess.DEVNULL)
+                w0, verdict = _t.time(), None
+                while verdict is None:
+                    try:
+                        q.wait(timeout=1.0)
+                        verdict = "finished"
+                    except subprocess.TimeoutExpired:
+                        try:
+                            f = open("/proc/%d/stat" % q.pid).read().rsplit(")", 1)[1].split()
+                            cpu = (int(f[11]) + int(f[12])) / float(os.sysconf("SC_CLK_TCK"))
+                        except Exception:
+                            cpu = _t.time() - w0
+                        if cpu >= confirm_s:
+                            verdict = "hang"
+                        elif _t.time() - w0 > 20 * confirm_s:
+                            verdict = "starved"
+                if verdict != "finished":
+                    q.kill()
+                    q.wait()
+                if verdict == "finished":
                     ctx.count("slow_case_not_confirmed")
-                except subprocess.TimeoutExpired:
+                elif verdict == "starved":
+                    ctx.mark_inconclusive("hang-lane: confirmation child got less than %.0f s of CPU in %.0f s" % (confirm_s, 20 * confirm_s))
+                else:
                     ctx.count("evaluations")
                     ctx.fail({"text": text, "gen": "hang-lane", "length": len(text)},
                              "parse does not terminate within a bound proportional to the input "
-                             "(%d characters: no outcome after %.0f s, twice, in fresh processes; "
+                             "(%d characters: no outcome after %.0f s of CPU time, in a fresh process; "
                              "the slowest other case of this lane took milliseconds)"
                              % (len(text), confirm_s),
                              expected="an outcome within milliseconds", observed="still running",
